@@ -428,12 +428,6 @@ def transpose(eng, st, v):
     return eng.mk_arr(st, 2, v.k[2], [sh[1], sh[0]], lam([i, j], z3.Select(d, j, i)))
 
 
-def matmul(eng, st, a, b, node):
-    """a @ b as an uninterpreted function of the operands' contents and shapes."""
-    used(eng, "operator @ (matrix product) is an uninterpreted function of the operand contents")
-    raise Unsupported("matmul outside kernels with a dedicated contract")
-
-
 # ---------------------------------------------------------------- subscripts
 def arr_index_int(eng, st, v, i):
     """a[i] for 1-D (element) or 2-D (row copy)."""
@@ -989,3 +983,132 @@ def np_argmin(eng, st, args, kw, node):
     st.assume(z3.ForAll([j], z3.Implies(z3.And(0 <= j, j < r), z3.Select(d, r) < z3.Select(d, j)),
                         patterns=[z3.Select(d, j)]))
     return vint(r)
+
+
+# ---------------------------------------------------------------- real sums
+def rsum(eng, st, arr=None, n=None):
+    """rsum(A, n) = A[0] + ... + A[n-1] over the reals (summation order ignored: A-REAL).
+    Per-array defining equations; lemma instances (proved by induction in lemmas/l_sums.py):
+      prefix-extensionality between every pair of arrays summed in this state, constant-array sum."""
+    f = eng.uf('rsum', z3.ArraySort(I, R), I, R)
+    if arr is None:
+        return f
+    key = 'axioms:rsum:%d' % arr.get_id()
+    if key not in st.ghost:
+        st.ghost[key] = True
+        a, b = z3.Int(fresh_name('rm')), z3.Int(fresh_name('rn'))
+        st.pc.append(f(arr, 0) == 0)
+        body = z3.Implies(z3.And(b == a + 1, a >= 0), f(arr, b) == f(arr, a) + z3.Select(arr, a))
+        try:
+            st.pc.append(z3.ForAll([a, b], body, patterns=[z3.MultiPattern(f(arr, a), f(arr, b))]))
+        except z3.Z3Exception:
+            st.pc.append(z3.ForAll([a, b], body))
+    if n is not None:
+        apps = st.ghost.setdefault('rsum_apps', [])
+        if not any(x.eq(arr) and y.eq(n) for x, y in apps):
+            eng.assumed.add("lemma (proved by induction in lemmas/l_sums.py): arrays equal on [0,n) have equal rsum(.,n); "
+                            "rsum of an array constant on [0,n) is n times the constant")
+            s_ = z3.Int(fresh_name('rs'))
+            for (x, y) in apps:
+                prem = z3.ForAll([s_], z3.Implies(z3.And(0 <= s_, s_ < n), z3.Select(arr, s_) == z3.Select(x, s_)))
+                st.pc.append(z3.Implies(z3.And(n == y, prem), f(arr, n) == f(x, y)))
+            prem = z3.ForAll([s_], z3.Implies(z3.And(0 <= s_, s_ < n), z3.Select(arr, s_) == z3.Select(arr, 0)))
+            st.pc.append(z3.Implies(z3.And(n >= 0, prem), f(arr, n) == z3.ToReal(n) * z3.Select(arr, 0)))
+            st.ghost['rsum_apps'] = apps + [(arr, n)]
+    return f
+
+
+@model('numpy.sum')
+def np_sum(eng, st, args, kw, node):
+    v = args[0]
+    if kw or len(args) != 1:
+        raise Unsupported("np.sum with axis/keywords")
+    if isinstance(v.k, tuple) and v.k[0] == 'arr' and v.k[1] == 1 and v.k[2] == 'real':
+        used(eng, "np.sum(1-D float array) = mathematical sum of its elements (summation order/rounding ignored)")
+        d, n = eng.arr_data(st, v), eng.arr_shape(st, v)[0]
+        return vreal(rsum(eng, st, d, n)(d, n))
+    if isinstance(v.k, tuple) and v.k[0] == 'list' and v.k[1] == 'real':
+        used(eng, "np.sum(list of float) = mathematical sum of its elements")
+        d, n = eng.list_arr(st, v), eng.list_len(st, v)
+        return vreal(rsum(eng, st, d, n)(d, n))
+    if isinstance(v.k, tuple) and v.k[0] == 'arr' and v.k[2] == 'bool':
+        used(eng, "np.sum(boolean array) = number of True cells (uninterpreted count of the array contents)")
+        d = eng.arr_data(st, v)
+        cnt = eng.uf('count_true_%dd' % v.k[1], d.sort(), *([I] * v.k[1] + [I]))
+        sh = eng.arr_shape(st, v)
+        r = cnt(d, *sh)
+        st.assume(r >= 0)
+        return vint(r)
+    raise Unsupported("np.sum of %r" % (v.k,))
+
+
+# ---------------------------------------------------------------- linear algebra (assumed, uninterpreted)
+def _norm_uf(eng, nd):
+    if nd == 1:
+        return eng.uf('norm2_1d', z3.ArraySort(I, R), I, R)
+    return eng.uf('norm2_2d', z3.ArraySort(I, I, R), I, I, R)
+
+
+@model('numpy.linalg.norm')
+def np_norm(eng, st, args, kw, node):
+    v = args[0]
+    if kw or len(args) != 1 or not (isinstance(v.k, tuple) and v.k[0] == 'arr' and v.k[2] == 'real'):
+        raise Unsupported("norm form")
+    used(eng, "np.linalg.norm(a) is a non-negative real, a function of the array contents only (Frobenius/2-norm, opaque)")
+    f = _norm_uf(eng, v.k[1])
+    r = f(eng.arr_data(st, v), *eng.arr_shape(st, v))
+    st.assume(r >= 0)
+    return vreal(r)
+
+
+@model('numpy.linalg.eigh')
+def np_eigh(eng, st, args, kw, node):
+    """ASSUMED: for symmetric A (n x n) returns (d, Q): Q orthogonal, A = Q diag(d) Q^T (exact over the reals).
+    The relation is recorded as the uninterpreted predicate eigh_rel(A, n, d, Q)."""
+    v = args[0]
+    if not (isinstance(v.k, tuple) and v.k[0] == 'arr' and v.k[1] == 2):
+        raise Unsupported("eigh form")
+    used(eng, "np.linalg.eigh(A), A symmetric: returns (d, Q) with Q orthogonal and A = Q diag(d) Q^T, exact over the reals "
+              "(LAPACK rounding ignored); spectral calculus: f applied to d gives the matrix function")
+    sh = eng.arr_shape(st, v)
+    if not st.spec:
+        eng.oblige(st, "noexc:eigh-non-square@L%d" % node.lineno, 'noexc', sh[0] == sh[1], node)
+        st.assume(sh[0] == sh[1])
+    dd = z3.Const(fresh_name('eig_d'), z3.ArraySort(I, R))
+    qd = z3.Const(fresh_name('eig_q'), z3.ArraySort(I, I, R))
+    d = eng.mk_arr(st, 1, 'real', [sh[0]], dd)
+    q = eng.mk_arr(st, 2, 'real', [sh[0], sh[0]], qd)
+    rel = eng.uf('eigh_rel', z3.ArraySort(I, I, R), I, z3.ArraySort(I, R), z3.ArraySort(I, I, R), B)
+    st.assume(rel(eng.arr_data(st, v), sh[0], dd, qd))
+    return vtuple([d, q])
+
+
+def matmul(eng, st, a, b, node):
+    used(eng, "operator @ (matrix product): result shape (rows(a), cols(b)); contents an uninterpreted function of the operands")
+    if not all(isinstance(v.k, tuple) and v.k[0] == 'arr' and v.k[2] == 'real' for v in (a, b)):
+        raise Unsupported("matmul operands")
+    sa, sb = eng.arr_shape(st, a), eng.arr_shape(st, b)
+    da, db = eng.arr_data(st, a), eng.arr_data(st, b)
+    if a.k[1] == 2 and b.k[1] == 2:
+        if not st.spec:
+            eng.oblige(st, "noexc:matmul-shape@L%d" % node.lineno, 'noexc', sa[1] == sb[0], node)
+            st.assume(sa[1] == sb[0])
+        f = eng.uf('mm22', da.sort(), db.sort(), I, I, I, z3.ArraySort(I, I, R))
+        return eng.mk_arr(st, 2, 'real', [sa[0], sb[1]], f(da, db, sa[0], sa[1], sb[1]))
+    if a.k[1] == 1 and b.k[1] == 2:
+        if not st.spec:
+            eng.oblige(st, "noexc:matmul-shape@L%d" % node.lineno, 'noexc', sa[0] == sb[0], node)
+            st.assume(sa[0] == sb[0])
+        f = eng.uf('mm12', da.sort(), db.sort(), I, I, z3.ArraySort(I, R))
+        return eng.mk_arr(st, 1, 'real', [sb[1]], f(da, db, sb[0], sb[1]))
+    if a.k[1] == 2 and b.k[1] == 1:
+        if not st.spec:
+            eng.oblige(st, "noexc:matmul-shape@L%d" % node.lineno, 'noexc', sa[1] == sb[0], node)
+            st.assume(sa[1] == sb[0])
+        f = eng.uf('mm21', da.sort(), db.sort(), I, I, z3.ArraySort(I, R))
+        return eng.mk_arr(st, 1, 'real', [sa[0]], f(da, db, sa[0], sa[1]))
+    if not st.spec:
+        eng.oblige(st, "noexc:matmul-shape@L%d" % node.lineno, 'noexc', sa[0] == sb[0], node)
+        st.assume(sa[0] == sb[0])
+    f = eng.uf('dot11', da.sort(), db.sort(), I, R)
+    return vreal(f(da, db, sa[0]))
